@@ -6,6 +6,7 @@
  * PISTACHE_VERIF_GUARD(name, mtx, label) is a scoped lock; without the define it is a
  * plain std::unique_lock. PISTACHE_VERIF_ACCESS(obj, field, write) reports an access to
  * shared state; without the define it expands to nothing.
+ * Pistache::Verif::writeHook lets a test cap or fail individual socket writes.
  */
 
 #pragma once
@@ -38,6 +39,13 @@ namespace Pistache::Verif
         if (accessHook)
             accessHook(obj, field, write);
     }
+
+    // Consulted before every socket write (send / sendfile) of the transport:
+    // the hook may lower *allowed (how many bytes this call may hand to the socket)
+    // or return false with *err set to make the call fail with that errno without
+    // touching the socket (e.g. EAGAIN).
+    using WriteFn = bool (*)(int fd, size_t len, size_t* allowed, int* err);
+    inline WriteFn writeHook = nullptr;
 
     // Scoped lock that never blocks inside the mutex: a cooperative scheduler runs one
     // thread at a time, so a contended acquisition has to hand control back instead.
